@@ -36,6 +36,30 @@ CHECKS = {
         note="Same trusted base as C03 for the per-pixel rule. The end-to-end reference assumes clips pushed before the layer stay until after the pop (well-nested scenes).",
         ref="DESIGN.md section 3, C06",
     ),
+    "C16": dict(
+        technique="lock-step monitor over Path::flatten output with an f64 curve oracle (closest-point distance, parameter order, deviation), plus fill/hit-test agreement of the flattened path",
+        text="Random paths in every op order (curves first, after MoveTo, directly after Close, consecutive Closes, coincident control points, coordinates to +-4000) and tolerances 1e-3..10: MoveTo/LineTo/Close preserved bit for bit and in order; each curve's polyline equals the curve flattened alone from its true start, its vertices lie within tolerance of the curve in parameter order, end exactly at the end point and stay within 8 x tolerance of the curve. Held on the paths run.",
+        note="The number of vertices per curve is taken from flattening that curve alone (which also asserts context independence). Up to 48 evenly spaced vertices per curve get the closest-point check.",
+        ref="DESIGN.md section 3, C16",
+    ),
+    "C17": dict(
+        technique="exact integer reference (on-segment test and half-open crossing count) over grid polygons and grid query points, exhaustive small space, cross-check against fill",
+        text="contains_point is compared with an exact i64 computation on grid polygons and query points chosen level with vertices, collinear with edges beyond their ends, on edges and on vertices; every quadrilateral on the 4x4 integer grid x 49 half-grid points x both rules is enumerated completely; curved paths are cross-checked against pixels deep inside painted / untouched areas. Held on what was run.",
+        note="Grid coordinates keep contains_point's own f32 arithmetic exact. The fill cross-check only uses pixel centres more than 0.3 px from every segment (zero-area slivers run through untouched pixels).",
+        ref="DESIGN.md section 3, C17",
+    ),
+    "C19": dict(
+        technique="cross-view read/write monitor and PNG decode oracle; Miri run of the same workload for the unsafe re-slicing in the thorough tier",
+        text="Word packing, byte order of get_data_u8, writes through each view read back through the others, from_vec/from_backing/into_vec/into_inner round trips and write_png (decoded with the png crate: 8-bit RGBA, size, row-major, alpha unchanged, colour = floor(c*255/a), transparent pixels passed through) on surfaces 0..17 x 0..9 with every valid (alpha, colour) pair of one channel. Held on what was run.",
+        note="Little-endian machine assumed (as the statement does). PNG files go to /verif/.work and are removed.",
+        ref="DESIGN.md section 3, C19",
+    ),
+    "C20": dict(
+        technique="f64 evaluation of the ops returned by PathBuilder::rect/arc/finish and Path::transform",
+        text="rect corners and op order exact; arc: initial LineTo to the start point, every sampled curve point at distance r within 0.5%, angle monotone in the sweep's direction, total angle = sweep clamped to one turn, end point as expected; transform: every point mapped bit for bit, kinds/order/winding kept; finish: ops in call order, NonZero. Held on the parameters run.",
+        note="Start angles limited to +-100 rad and angle checks skipped when the radius is below the f32 quantisation of the centre (no meaningful angles).",
+        ref="DESIGN.md section 3, C20",
+    ),
     "C18": dict(
         technique="online premultiplied-validity monitor on every buffer after every call, exhaustive colour-conversion enumeration",
         text="Every pixel of every buffer after every call of the scene and pixel-lab workloads (valid destinations and sources only) must satisfy r,g,b <= a; Color/from_unpremultiplied_argb are enumerated over all 65536 (alpha, channel) pairs. Held on what was run; one known finding in the dependency (BlendMode::Color) is reported as KNOWN-FINDING.",
@@ -77,6 +101,18 @@ CHECKS = {
         text="fill under T vs fill of Path::transform(T) under the identity must be bit-identical (all op kinds, AA modes, under clips and in layers); singular T must leave every pixel unchanged for fill/stroke/fill_rect/draw_image; push_clip_rect, mask(solid), copy_surface, blend_surface* must not depend on T; clear/pop_layer must leave get_transform() bitwise unchanged. Sources and strokes under T are judged by the C12/C13/C04 oracles, which draw random transforms. Held on what was run.",
         note="mask() with a solid source under a singular transform is not asserted (the statement is silent on which clause wins).",
         ref="DESIGN.md section 3, C11",
+    ),
+    "C12": dict(
+        technique="reference-model monitor: analytic gradient parameter and stop interpolation in f64 evaluated at T^-1 of every pixel centre of generated gradient fills",
+        text="Generated linear/radial/two-circle/sweep gradients (1..5 increasing stops, three spreads, alpha, geometry inside/across/far outside the surface, random invertible transforms) observed through a full-surface Src fill; every channel must lie within 4/255 of the reference colour range for t within 3/255 (+|t|/255 for two-circle and sweep) of the pixel's t, folded through the spread. Held on what was run; sweeps with a non-zero start angle hit a known finding in sw-composite (exact signature).",
+        note="Pixels within 1.5 px of a sweep centre, on the sweep seam or at a two-circle double root are not asserted. The largest excess over the reference interval seen is reported (below 3 LSB on the unchanged tree).",
+        ref="DESIGN.md section 3, C12",
+    ),
+    "C13": dict(
+        technique="reference-model monitor: f64 image sampler (nearest texel / 4-bit bilinear weights, pad/repeat) evaluated at M(pixel centre) of generated image fills and draw_image calls",
+        text="Generated images with position-encoding texels, both extend modes and filters, alpha, source and current transforms (integer/fractional/half-texel translations, scales incl. negative, rotations, far beyond the edges): Nearest must return exactly the texel under the pixel centre, Bilinear the 4-bit-weighted interpolation within 1 LSB and exactly the texel at texel centres; draw_image_at/with_size_at are checked against the statement. Held on what was run.",
+        note="Samples within the 16.16 conversion error of a texel or weight boundary accept either neighbour (counted); the band is zero for exact integer translations, so the integer fast paths must be exact.",
+        ref="DESIGN.md section 3, C13",
     ),
     "C14": dict(
         technique="exact differential between the optimised and the general route on identical canary destinations",
